@@ -13,6 +13,7 @@ from vf.runner import Ob
 from vf.sched import Sched
 
 LEVEL = "other"
+TECHNIQUE = ('symx: symbolic schedule, grace period, file age and collector clock; real GarbageCollector racing real transactions under a baton scheduler; concrete replay')
 EXPLANATION = (
     "Bounded symbolic execution (symx/z3) of the real collector racing real transactions under a baton scheduler; "
     "grace period, file ages and collector clock readings are symbolic, schedule choices are solver variables "
